@@ -34,6 +34,7 @@ import (
 	batchv1 "k8s.io/api/batch/v1"
 	corev1 "k8s.io/api/core/v1"
 	metav1 "k8s.io/apimachinery/pkg/apis/meta/v1"
+	apimeta "k8s.io/apimachinery/pkg/api/meta"
 	"k8s.io/apimachinery/pkg/runtime"
 	"k8s.io/apimachinery/pkg/runtime/schema"
 	"sigs.k8s.io/yaml"
@@ -66,6 +67,7 @@ type setting struct {
 	flags  []string
 	files  []string // IstioOperator files under testdata/inject (extra templates)
 	native bool
+	mesh   func(m *meshconfig.MeshConfig) // as the `mesh:` entries of the package's TestInjection
 }
 
 // Base settings (how the charts are rendered). A setting token in an op is `<base>[+<modifier>]*`:
@@ -83,6 +85,37 @@ var settings = []setting{
 	{name: "custom", files: []string{"custom-template.iop.yaml"}},
 	{name: "spire", files: []string{"spire-template.iop.yaml"}},
 	{name: "network", flags: []string{"values.global.network=network-a", "values.global.multiCluster.clusterName=cluster-a"}},
+	// the setFlags / mesh entries of inject_test.go TestInjection
+	{name: "otel", mesh: func(m *meshconfig.MeshConfig) {
+		m.ExtensionProviders = append(m.ExtensionProviders, &meshconfig.MeshConfig_ExtensionProvider{
+			Name: "otel",
+			Provider: &meshconfig.MeshConfig_ExtensionProvider_Opentelemetry{
+				Opentelemetry: &meshconfig.MeshConfig_ExtensionProvider_OpenTelemetryTracingProvider{
+					Service: "otel-collector.observability.svc.cluster.local", Port: 4317,
+					ServiceAttributeEnrichment: meshconfig.MeshConfig_ExtensionProvider_OTEL_SEMANTIC_CONVENTIONS,
+				},
+			},
+		})
+	}},
+	{name: "mesh-tproxy", mesh: func(m *meshconfig.MeshConfig) { m.DefaultConfig.InterceptionMode = meshconfig.ProxyConfig_TPROXY }},
+	{name: "mesh-statusport", mesh: func(m *meshconfig.MeshConfig) { m.DefaultConfig.StatusPort = 15025 }},
+	{name: "statusport123", flags: []string{"values.global.proxy.statusPort=123", "values.global.proxy.readinessInitialDelaySeconds=100",
+		"values.global.proxy.readinessPeriodSeconds=200", "values.global.proxy.readinessFailureThreshold=300"}},
+	{name: "statusport0", flags: []string{"values.global.proxy.includeIPRanges=127.0.0.1/24,10.96.0.1/24", "values.global.proxy.excludeIPRanges=10.96.0.2/24,10.96.0.3/24",
+		"values.global.proxy.excludeInboundPorts=4,5,6", "values.global.proxy.statusPort=0"}},
+	{name: "multus", flags: []string{"components.cni.enabled=true", "values.cni.provider=multus"}},
+	{name: "mtlscerts", flags: []string{"values.global.mountMtlsCerts=true"}},
+	{name: "mesh-proxymetadata", mesh: func(m *meshconfig.MeshConfig) {
+		if m.DefaultConfig.ProxyMetadata == nil {
+			m.DefaultConfig.ProxyMetadata = map[string]string{}
+		}
+		m.DefaultConfig.ProxyMetadata["ISTIO_META_TLS_CLIENT_KEY"] = "/etc/identity/client/keys/client-key.pem"
+		m.DefaultConfig.ProxyMetadata["ISTIO_META_DNS_CAPTURE"] = "true"
+	}},
+	{name: "mesh-misc", flags: []string{"values.global.imagePullPolicy=Always", "values.global.proxy.image=proxyTest"}, mesh: func(m *meshconfig.MeshConfig) {
+		m.DefaultConfig.Tracing = &meshconfig.Tracing{}
+		m.InboundTrafficPolicy = &meshconfig.MeshConfig_InboundTrafficPolicy{Mode: meshconfig.MeshConfig_InboundTrafficPolicy_LOCALHOST}
+	}},
 }
 
 type loaded struct {
@@ -195,6 +228,9 @@ func loadSetting(name string) (*loaded, error) {
 	}
 	if cfg == nil || mc == nil {
 		return nil, fmt.Errorf("injector or mesh ConfigMap not rendered")
+	}
+	if st.mesh != nil {
+		st.mesh(mc)
 	}
 	l := &loaded{wh: inject.VerifNewWebhook(cfg, vc, mc, "default"), cfg: cfg, native: st.native}
 	loadedSettings[name] = l
@@ -570,6 +606,17 @@ func runOp(toks []string) *run {
 		r := runKubeInject(toks[1], wire.Dec(toks[2]), doc)
 		r.kind, r.file = "kubeinject", wire.Dec(toks[2])
 		return r
+	case "kubeinject-pod": // kubeinject-pod <setting> <pod|deployment> <workload namespace> <pod json>
+		if len(toks) != 5 {
+			return &run{status: "unloadable", detail: "bad op"}
+		}
+		pod := &corev1.Pod{}
+		if err := json.Unmarshal([]byte(wire.Dec(toks[4])), pod); err != nil {
+			return &run{status: "unloadable", detail: err.Error()}
+		}
+		r := runKubeInjectPod(toks[1], toks[2], wire.Dec(toks[3]), pod)
+		r.kind = "kubeinject"
+		return r
 	case "pod":
 		if len(toks) != 4 {
 			return &run{status: "unloadable", detail: "bad op"}
@@ -622,7 +669,39 @@ func templateOf(obj runtime.Object) *corev1.Pod {
 }
 
 // runKubeInject: `istioctl kube-inject` on a fixture document, then on its own output.
-func runKubeInject(settingName, file string, doc int) (r *run) {
+func runKubeInject(settingName, file string, doc int) *run {
+	docs := fixtureDocs(file)
+	if doc >= len(docs) {
+		return &run{status: "unloadable", detail: "no such document"}
+	}
+	obj, err := inject.FromRawToObject([]byte(docs[doc]))
+	if err != nil {
+		return &run{status: "unloadable", detail: err.Error()}
+	}
+	return runKubeInjectObject(settingName, obj)
+}
+
+// runKubeInjectPod: a generated pod, bare or wrapped into a Deployment of namespace wlNS, through kube-inject.
+func runKubeInjectPod(settingName, wrap, wlNS string, pod *corev1.Pod) *run {
+	switch wrap {
+	case "pod":
+		pod.TypeMeta = metav1.TypeMeta{Kind: "Pod", APIVersion: "v1"}
+		return runKubeInjectObject(settingName, pod)
+	case "deployment":
+		d := &appsv1.Deployment{
+			TypeMeta:   metav1.TypeMeta{Kind: "Deployment", APIVersion: "apps/v1"},
+			ObjectMeta: metav1.ObjectMeta{Name: "wl", Namespace: wlNS},
+			Spec: appsv1.DeploymentSpec{Template: corev1.PodTemplateSpec{
+				ObjectMeta: metav1.ObjectMeta{Namespace: pod.Namespace, Labels: pod.Labels, Annotations: pod.Annotations},
+				Spec:       pod.Spec,
+			}},
+		}
+		return runKubeInjectObject(settingName, d)
+	}
+	return &run{status: "unloadable", detail: "unknown wrap"}
+}
+
+func runKubeInjectObject(settingName string, obj runtime.Object) (r *run) {
 	r = &run{}
 	defer func() {
 		if e := recover(); e != nil {
@@ -635,15 +714,9 @@ func runKubeInject(settingName, file string, doc int) (r *run) {
 		return r
 	}
 	r.l = l
-	docs := fixtureDocs(file)
-	if doc >= len(docs) {
-		r.status, r.detail = "unloadable", "no such document"
-		return r
-	}
-	obj, err := inject.FromRawToObject([]byte(docs[doc]))
-	if err != nil {
-		r.status, r.detail = "unloadable", err.Error()
-		return r
+	// namespace of the workload object (the documented namespace of its pods when the template names none)
+	if acc, err := apimeta.Accessor(obj); err == nil {
+		r.reqNS = acc.GetNamespace()
 	}
 	prev := features.EnableNativeSidecars
 	features.EnableNativeSidecars = features.NativeSidecarModeDisabled
@@ -767,6 +840,9 @@ func execInject(in, out string) {
 		if toks[0] == "pod" && len(toks) == 4 {
 			src = []string{"pod", toks[1], toks[2], "json:" + digest(toks[3])}
 		}
+		if toks[0] == "kubeinject-pod" && len(toks) == 5 {
+			src = []string{"kubeinject-pod", toks[1], toks[2], toks[3], "json:" + digest(toks[4])}
+		}
 		o.Line(append([]string{"src"}, src...)...)
 		if r.orig != nil && r.l != nil && r.status != "unloadable" {
 			writeDecisionInputs(o, decisionInputs(r))
@@ -808,6 +884,10 @@ func decisionInputs(r *run) *decideState {
 	st.spec = *r.orig.Spec.DeepCopy()
 	st.meta = *r.orig.ObjectMeta.DeepCopy()
 	if r.kind == "kubeinject" {
+		// documented rule (not the code's view): the namespace of the pod is the template's, else the workload's
+		if st.meta.Namespace == "" {
+			st.meta.Namespace = r.reqNS
+		}
 		st.cfg = inject.Config{Policy: inject.InjectionPolicyEnabled}
 		return st
 	}
@@ -910,7 +990,11 @@ func refusalExpectation(r *run) string {
 			}
 		}
 	}
-	if (r.kind == "fixture" || r.kind == "kubeinject") && !hasGolden(r.file) {
+	if r.orig.Annotations["prometheus.io/port"] == "15020" {
+		// 15020 is documented as reserved for the agent; whether scraping it is refused depends on the status port in force
+		return "may"
+	}
+	if (r.kind == "fixture" || r.kind == "kubeinject") && r.file != "" && !hasGolden(r.file) {
 		return "may"
 	}
 	return "no"
@@ -1052,15 +1136,15 @@ func verdictOf(r *run) string {
 	if v := preserved("preserve-twice", r.orig, r.twice); v != "" {
 		return v
 	}
+	if v := networkExpectation(r); v != "" {
+		return v
+	}
 	if !jsonEqual(r.onceJSON, r.twiceJSON) {
 		if k := knownClass(r); k != "" {
 			// known findings F10e / F10g, classified exactly: see notes/C19.md
 			return "FAIL " + k + " " + wire.Enc(firstDiff(r.onceJSON, r.twiceJSON))
 		}
 		return "FAIL idempotent " + wire.Enc(firstDiff(r.onceJSON, r.twiceJSON))
-	}
-	if v := networkExpectation(r); v != "" {
-		return v
 	}
 	return "OK injected"
 }
@@ -1118,33 +1202,44 @@ func hasTemplate(r *run, name string) bool {
 //                    declares ports, and the pods differ in nothing but the value of the sidecar's ISTIO_META_POD_PORTS;
 //   F10g env order - the injector was given cluster / network variables (values.global.multiCluster.clusterName,
 //                    values.global.network, an inject URL path or the pod's topology.istio.io/network label) and the
-//                    pods differ in nothing but the ORDER of the sidecar's env list.
+//                    pods differ in nothing but the POSITION of ISTIO_META_CLUSTER_ID / ISTIO_META_NETWORK in the sidecar's
+//                    env list (all other variables equal as an ordered list).
 // A pod in both classes is reported under the first.
 func knownClass(r *run) string {
 	if r.once == nil || r.twice == nil {
 		return ""
 	}
 	userPorts := false
-	for _, c := range append(append([]corev1.Container{}, r.orig.Spec.Containers...), r.orig.Spec.InitContainers...) {
-		if c.Name == inject.ProxyContainerName && len(c.Ports) > 0 {
+	// variables whose position the removal / re-append of the cluster variables shifts: the two cluster variables and the
+	// variables the user's own istio-proxy customisation adds (the merge aligns them against the hole the removal leaves)
+	movable := map[string]bool{"ISTIO_META_CLUSTER_ID": true, "ISTIO_META_NETWORK": true}
+	userProxy := func(c corev1.Container) {
+		if c.Name != inject.ProxyContainerName {
+			return
+		}
+		if len(c.Ports) > 0 {
 			userPorts = true
 		}
+		for _, e := range c.Env {
+			movable[e.Name] = true
+		}
+	}
+	for _, c := range append(append([]corev1.Container{}, r.orig.Spec.Containers...), r.orig.Spec.InitContainers...) {
+		userProxy(c)
 	}
 	if ov, ok := r.orig.Annotations[annotation.ProxyOverrides.Name]; ok {
 		var pc inject.ParsedContainers
 		if json.Unmarshal([]byte(ov), &pc) == nil {
 			for _, c := range pc.AllContainers() {
-				if c.Name == inject.ProxyContainerName && len(c.Ports) > 0 {
-					userPorts = true
-				}
+				userProxy(c)
 			}
 		}
 	}
 	clusterVars := false
-	if r.kind != "kubeinject" && r.l != nil {
+	if r.l != nil {
 		g := r.l.wh.GetConfig().Values.Struct().GetGlobal()
 		_, netLabel := r.orig.Labels["topology.istio.io/network"]
-		clusterVars = r.l.path != "" || g.GetNetwork() != "" || g.GetMultiCluster().GetClusterName() != "" || netLabel
+		clusterVars = (r.kind != "kubeinject" && r.l.path != "") || g.GetNetwork() != "" || g.GetMultiCluster().GetClusterName() != "" || netLabel
 	}
 	norm := func(p *corev1.Pod, blankPorts, sortEnv bool) []byte {
 		q := p.DeepCopy()
@@ -1162,7 +1257,19 @@ func knownClass(r *run) string {
 					}
 				}
 				if sortEnv {
-					sort.SliceStable(env, func(a, b int) bool { return env[a].Name < env[b].Name })
+					// F10g key: the movable variables may sit anywhere; everything else has to be equal as an ORDERED list (any
+					// other reorder is a violation). They are taken out and appended sorted. (Checked: updating the cluster
+					// variables in place makes every pod of this class idempotent - one root cause.)
+					var rest, cv []corev1.EnvVar
+					for _, e := range env {
+						if movable[e.Name] {
+							cv = append(cv, e)
+						} else {
+							rest = append(rest, e)
+						}
+					}
+					sort.SliceStable(cv, func(a, b int) bool { return cv[a].Name < cv[b].Name })
+					l[i].Env = append(rest, cv...)
 				}
 			}
 		}
